@@ -44,14 +44,17 @@ DT = {"bool": "bool", "int8": "i8", "int16": "i16", "int32": "i32", "int64": "i6
 DTYPES = list(DT)
 FLOATS = ["float16", "float32", "float64"]
 SHAPES = [(), (1,), (3,), (0,), (2, 3), (0, 2), (1, 1), (2, 1, 2), (2, 0, 3)]
-IOS = ["path-npz", "path-noext", "pathlib-npz", "pathlib-noext", "bytesio", "openfile", "tempfile", "bytesio-offset", "tempfile-offset"]
+IOS = ["path-npz", "path-noext", "pathlib-npz", "pathlib-noext", "bytesio", "openfile", "tempfile", "bytesio-offset", "tempfile-offset",
+       "openfile-noext", "openfile-noext-pathlib"]
 IO_CLASS = {"path-npz": "path", "path-noext": "path", "pathlib-npz": "path", "pathlib-noext": "path",
             "bytesio": "fileobj", "openfile": "fileobj", "tempfile": "fileobj",
             # the archive does not start at offset 0 of the file object (a caller's own header precedes it)
-            "bytesio-offset": "fileobj", "tempfile-offset": "fileobj"}
+            "bytesio-offset": "fileobj", "tempfile-offset": "fileobj",
+            # written through a file object opened on a name without ".npz", read back through that very name
+            "openfile-noext": "fileobj", "openfile-noext-pathlib": "fileobj"}
 GRADS = ["none", "scalar", "nonscalar", "seed", "seed-bcast", "nulled"]
 LIVE = ["consumer", "intermediate", "terminal-kept", "reused"]
-VIEW_IDX = ["1:", "::-1", "...", "0", "reshape", "T", ":0"]
+VIEW_IDX = ["1:", "::-1", "...", "0", "reshape", "T", ":0", "0d"]
 VIEW_GRAPH = ["base-backward", "view-backward", "no-backward", "base-backward-read", "stale-cache", "both-backward"]
 _TMP = {"dir": None}
 
@@ -91,6 +94,8 @@ def _apply_idx(x, idx):
         return x[0]
     if idx == ":0":
         return x[:0]
+    if idx == "0d":  # a 0-d *view* (an integer index followed by an Ellipsis returns a view, not a scalar copy)
+        return x[(0,) * x.ndim + (Ellipsis,)]
     if idx == "T":
         return x.T
     if idx == "reshape":
@@ -256,6 +261,14 @@ def do_save_load(t, iomode, tag):
                 keys = sorted(np.load(f).files)
                 f.seek(0)
                 return mg.load(f), keys
+        if iomode.startswith("openfile-noext"):
+            name = base + ".bin"
+            paths.append(name)
+            with open(name, "wb") as f:
+                mg.save(f, t)
+            with open(name, "rb") as f:
+                keys = sorted(np.load(f).files)
+            return mg.load(Path(name) if iomode.endswith("pathlib") else name), keys
         if iomode == "openfile":
             with open(base + ".npz", "wb") as f:
                 mg.save(f, t)
@@ -501,6 +514,8 @@ def cases(ctx: Ctx):
                         if len(shape) >= 1:
                             for idx in VIEW_IDX:
                                 if idx == "0" and shape[0] == 0:
+                                    continue
+                                if idx == "0d" and 0 in shape:
                                     continue
                                 for gm in VIEW_GRAPH:
                                     if dtype not in FLOATS and gm not in ("base-backward", "no-backward"):
